@@ -149,7 +149,7 @@ def run_scenarios(rep, tier, seed, tag, make_scenario, oracle, n_quick, n_thorou
                 srng = core.rng_for(seed, f"{tag}/{i}/spell")
                 for st in scn["steps"]:
                     if st["op"] in ("create", "verify", "verifydh", "diff", "flatten", "info") and srng.random() < 0.5:
-                        st["spell"] = srng.choice(["slash", "slash", "rel"])      # ... or relative to the working directory
+                        st["spell"] = srng.choice(["slash", "slash", "rel", "dot", "dotrel", "updown", "dup"])      # ... relative to the working directory, ".", "./x", "x/../x", "//"
             if i % 4 == 3:
                 # files and folders named with -sf typed in a non-normalised way (./x, //x, d/../d/x)
                 frng = core.rng_for(seed, f"{tag}/{i}/sfspell")
